@@ -252,6 +252,44 @@ def gen_tree(rng, depth, max_digits=12, max_exp=30, ops="+-*/^", zero_bias=0.08)
         right = gen_tree(rng, depth - 1, max_digits, max_exp, ops, zero_bias)
     return ("bin", op, left, right)
 
+def leaves_of(t, out=None):
+    out = [] if out is None else out
+    if t[0] == "lit":
+        out.append(t)
+    elif t[0] == "bin":
+        leaves_of(t[2], out)
+        leaves_of(t[3], out)
+    elif t[0] == "call":
+        for a in t[2]:
+            leaves_of(a, out)
+    return out
+
+def reuse_literal(rng, t):
+    """The tree combined once more with one of its own literals - the same text again, or the same text as a percentage (or
+    without its percent sign): anything that remembers literals by their text meets its own past here (seed C01-f)."""
+    ls = sorted(leaves_of(t), key=lambda l: -len(l[1]))
+    if not ls:
+        return t
+    l = ls[0] if rng.random() < 0.7 else rng.choice(ls)
+    text, v = l[1], l[2]
+    r = rng.random()
+    if r < 0.5:
+        if text.endswith("%"):
+            text, v = text[:-1], v * 100
+        else:
+            text, v = text + "%", v / 100
+    op = rng.choice("+-*/")
+    if op == "/" and v == 0:
+        op = "-"
+    leaf = ("lit", text, v)
+    return ("bin", op, t, leaf) if rng.random() < 0.5 else ("bin", op if op != "/" or ev_safe(t) else "+", leaf, t)
+
+def ev_safe(t):
+    try:
+        return ev(t) != 0
+    except Exception:
+        return False
+
 def gen_chain(rng, n, calls=0.0):
     """A long flat chain a0 op a1 op a2 ... (left to right within a precedence level, as the minimal spelling has it), with the
     occasional parenthesised pair: exercises whatever grows with the NUMBER of operands rather than with nesting depth."""
